@@ -305,6 +305,19 @@ pub fn run(sink: &mut Sink, thorough: bool, seed: u64) {
     // wire codec self-check (the replay path depends on it)
     for k in 0..200 { let v = gen_value4(&mut r, k % 4, true); let e = enc(&v); assert_eq!(e, enc(&dec_value(&e)), "wire codec"); }
     for v in fixed_values(&mut r) { emit_rtv(sink, &cfg, &v, &mut r, "fixed"); }
+    // objects keyed by the private tokens of Number / RawValue are ordinary Values: they must survive the round trip too
+    if cfg!(feature = "ap") || cfg!(feature = "rv") {
+        for tok in ["$serde_json::private::Number", "$serde_json::private::RawValue"] {
+            for inner in [serde_json::json!("1"), serde_json::json!("abc"), serde_json::json!(1), serde_json::json!(null), serde_json::json!("[1, 2]")] {
+                let mut m = serde_json::Map::new(); m.insert(tok.to_string(), inner.clone());
+                let o = Value::Object(m.clone());
+                emit_rtv(sink, &cfg, &o, &mut r, "private-token");
+                emit_rtv(sink, &cfg, &Value::Array(vec![o.clone(), Value::Null]), &mut r, "private-token");
+                m.insert("~".to_string(), Value::Bool(true));   // a second key that sorts after the token
+                emit_rtv(sink, &cfg, &Value::Object(m), &mut r, "private-token");
+            }
+        }
+    }
     let n = if thorough { 30000 } else { 4000 };
     for k in 0..n {
         let d = r.below(5);
